@@ -140,8 +140,27 @@ def rule_R6(text, args, log):
 
 
 def rule_R7(text, args, log):
-    """debug_assert*! -> assert*! (kept as an obligation)"""
-    return regex_rewrite(text, 'R7', r'(?<![A-Za-z0-9_])debug_assert(_eq|_ne)?!', r'assert\1!', log)
+    """debug_assert!(C, MSG..) -> assert!(C); debug_assert_eq!(A, B, MSG..) -> assert!((A) == (B)); _ne likewise;
+    assert!/assert_eq!/assert_ne! WITH a message lose the message.  The condition is kept as an obligation; the message
+    (Verus does not support the formatting machinery) is dropped."""
+    spans = []
+    for (a, b, name) in _macro_calls(text, ['debug_assert', 'debug_assert_eq', 'debug_assert_ne', 'assert', 'assert_eq', 'assert_ne']):
+        inner = text[text.index('!', a) + 1:b].strip()[1:-1]
+        parts = _split_top(inner)
+        base = name.split('::')[-1]
+        if not base.startswith('debug_'):
+            # a plain assertion: only its message (if any) is dropped
+            if (base == 'assert' and len(parts) <= 1) or (base != 'assert' and len(parts) <= 2):
+                continue
+            base = 'debug_' + base
+        if base == 'debug_assert' and parts:
+            new = 'assert!(%s)' % ' '.join(parts[0].split())
+        elif base in ('debug_assert_eq', 'debug_assert_ne') and len(parts) >= 2:
+            new = 'assert!((%s) %s (%s))' % (' '.join(parts[0].split()), '==' if base.endswith('_eq') else '!=', ' '.join(parts[1].split()))
+        else:
+            raise ExtractError('unsupported construct: %s with %d arguments' % (name, len(parts)))
+        spans.append((a, b, new))
+    return _replace_spans(text, spans, log)
 
 
 _FOR_RX = re.compile(r'(?<![A-Za-z0-9_\.])for\s+(?P<pat>[^{};]+?)\s+in\s+(?P<e>[^{};]+?)\s*\{')
